@@ -1,3 +1,4 @@
+import Driver.C10
 import Driver.C12
 import Driver.C14
 import Driver.C16
@@ -16,6 +17,8 @@ open Driver
 
 def dispatch (prop : String) (args : List String) (impl : String) : Verdict :=
   match prop with
+  | "C10" => C10.handle args impl
+  | "C11" => C10.handle args impl
   | "C12" => C12.handle args impl
   | "C14" => C14.handle args impl
   | "C16" => C16.handle args impl
